@@ -71,6 +71,7 @@ fn generate(prop: &str, seed: u64, thorough: bool) -> Option<Plan> {
         "C11model" => Some(scen_pw::gen_c11_model(seed, thorough)),
         "C11" => Some(scen_udp::gen_c11_system(seed, thorough)),
         "C11srv" => Some(scen_hsrv::gen_c11_srv(seed, thorough)),
+        "C11users" => Some(scen_adv::gen_c11_users(seed, thorough)),
         "C12" => Some(scen_c12::gen_c12(seed, thorough)),
         "C12wrap" => Some(scen_c12::gen_c12_wrap(seed, thorough)),
         "C13" => Some(scen_local::gen_c13(seed, thorough)),
